@@ -1,10 +1,12 @@
 #!/bin/bash
 # usage: seed_check.sh <mutant dir> <id> <property> [extra vf args]   -- runs the property's check against a scratch worktree with the patch applied
+# (harness runs whose verified text is unaffected by the patch are reused from the content-addressed store; VERIF_NOCACHE=1 forces all of them)
 set -u
 M=$1; ID=$2; P=$3; shift 3
 W=/tmp/mut/run/$ID
+mkdir -p /tmp/mut/run/evidence
 rm -rf $W; git -C /repo worktree prune; git -C /repo worktree add -q --detach $W HEAD || exit 9
-git -C $W apply $M/patch.diff || { echo "$ID: PATCH DOES NOT APPLY"; exit 8; }
-mkdir -p /tmp/mut/run/evidence; cd /verif && VERIF_REPO=$W VERIF_NOCACHE=1 VERIF_EVIDENCE_DIR=/tmp/mut/run/evidence ./vf check $P --quick "$@" > /tmp/mut/run/$ID.$P.log 2>&1; RC=$?
+git -C $W apply $M/patch.diff || { echo "$ID: PATCH DOES NOT APPLY"; git -C /repo worktree remove --force $W; exit 8; }
+cd /verif && VERIF_REPO=$W VERIF_EVIDENCE_DIR=/tmp/mut/run/evidence ./vf check $P --quick "$@" > /tmp/mut/run/$ID.$P.log 2>&1; RC=$?
 echo "$ID $P exit=$RC $(grep -c '^VIOLATION' /tmp/mut/run/$ID.$P.log) violation line(s); $(grep '^VIOLATION' /tmp/mut/run/$ID.$P.log | head -2 | cut -c1-260 | tr '\n' ' ')"
 git -C /repo worktree remove --force $W
